@@ -167,6 +167,18 @@ def standardOpen (a : Args) (s : SSHArgs) (khLoads keyLoads : Bool) (verdict : K
       | some m => .established cfg.user m
       | none => .authFailed
 
+/-- the methods offered to the server, in order, up to and including the first accepted one -/
+def attemptsUntil (accepts : AuthMethod → Bool) : List AuthMethod → List AuthMethod
+  | [] => []
+  | m :: t => if accepts m then [m] else m :: attemptsUntil accepts t
+
+/-- credentials the server gets to see during `Open` (nothing unless its host key was accepted) -/
+def standardAttempts (a : Args) (s : SSHArgs) (khLoads keyLoads : Bool) (verdict : KhVerdict)
+    (accepts : AuthMethod → Bool) : List AuthMethod :=
+  match standardCfg a s khLoads keyLoads with
+  | .error _ => []
+  | .ok cfg => if hostKeyAccepted cfg.policy verdict then attemptsUntil accepts cfg.auth else []
+
 /-! ## specification side: what an ssh command line means (our reading of OpenSSH `ssh.c`) -/
 
 /-- parse state / effective settings -/
